@@ -92,7 +92,9 @@ every valuation `v` of the result is, through `φ`, a valuation of `other`, and 
 equation of the base (all base gates except the fed inputs are kept): the result computes the
 composition. The outputs are the base's minus `this_connectors` followed by `other`'s unconnected
 ones, the inputs are the base inputs that are still inputs followed by `other`'s unconnected ones;
-the named block records `other`'s interface; older blocks survive. -/
+the named block records `other`'s interface; older blocks survive; and every listed pair is identified:
+the i-th listed gate of `other` is, read through `φ`, the i-th listed base input (a gate of `other` listed
+twice is refused). -/
 theorem c10_right_connection_computes_the_composition {c other c' : Circuit} {thisC otherC : List Label}
     {name : Label} {addP : Bool} (hwo : WFG other) (hndc : c.labels.Nodup)
     (h : c.connectCircuit other thisC otherC true name addP = .ok c') :
@@ -106,8 +108,12 @@ theorem c10_right_connection_computes_the_composition {c other c' : Circuit} {th
       c'.inputs = c.inputs.filter (fun i => ((c'.find? i).map (·.ty)) == some INPUT) ++
         (other.inputs.filter (fun i => !otherC.contains i)).map φ ∧
       (name ≠ "" → ∃ fb, c'.getBlock name = .ok ⟨name, other.inputs.map φ, fb, other.outputs.map φ⟩) ∧
-      (∀ n b, n ≠ name → c.getBlock n = .ok b → c'.getBlock n = .ok b) :=
-  connect_right_semantics hwo hndc h
+      (∀ n b, n ≠ name → c.getBlock n = .ok b → c'.getBlock n = .ok b) ∧
+      otherC.map φ = thisC := by
+  obtain ⟨φ, h1, h2, h3, h4, h5, h6, h7, h8, h9⟩ := connect_right_semantics hwo hndc h
+  obtain ⟨_, _, _, _, _, _, _, hlen, _⟩ := connect_right_unfold h
+  exact ⟨φ, h1, h2, h3, h4, h5, h6, h7, h8, h9,
+    map_connectors ((nodupL_iff _).mp (connect_right_nodup_other h)) hlen h3⟩
 
 /-- **when a block name is given, extracting that block gives back the attached circuit's function**
 (left direction) -/
@@ -156,13 +162,13 @@ theorem c10_right_connection_returns {c other : Circuit} {thisC otherC : List La
     (hblk : c.blocks.any (fun b => b.name == name) = false)
     (hthisI : ∀ l ∈ thisC, (c.find? l).map (·.ty) = some INPUT)
     (hothL : ∀ l ∈ otherC, l ∈ other.labels)
-    (hndt : thisC.Nodup) (hlen : thisC.length = otherC.length)
+    (hndt : thisC.Nodup) (hndo : otherC.Nodup) (hlen : thisC.length = otherC.length)
     (hfresh : ∀ g ∈ other.gates, g.label ∉ otherC → connPre name addP ++ g.label ∉ c.labels)
     (hbn : ∀ b ∈ other.blocks, c.blocks.any (fun x => x.name == connPre name addP ++ b.name) = false)
     (hbd : (other.blocks.map (·.name)).Nodup)
     (hbo : ∀ b ∈ other.blocks, ∀ l ∈ b.outputs, l ∈ other.labels) :
     ∃ c', c.connectCircuit other thisC otherC true name addP = .ok c' :=
-  connect_right_total hw hwo hblk hthisI hothL hndt hlen hfresh hbn hbd hbo
+  connect_right_total hw hwo hblk hthisI hothL hndt hndo hlen hfresh hbn hbd hbo
 
 #print axioms c10_frame_add_gate
 #print axioms c10_left_connection_keeps_base_function
